@@ -6,6 +6,8 @@ def run(tier, seed):
         mc_cfgs=(["ChanMC_c05.cfg"], ["ChanMC_c05.cfg", "ChanMC_c05t.cfg"]),
         profiles=[("async", 2, 150), ("asyncreest", 2, 250), ("deferred", 2, 80), ("asyncopen", 2, 60), ("asyncopen", 3, 50), ("async", 3, 60)],
         thorough_profiles=[("async", 2, 4000), ("asyncreest", 2, 5000), ("deferred", 2, 2000), ("deferred", 3, 800), ("asyncopen", 2, 1500), ("asyncopen", 3, 1000), ("async", 3, 1500)],
+        families=[("blockedjump", 250), ("opendisc", 250), ("asynccross", 200)],
+        thorough_families=[("blockedjump", 5000), ("opendisc", 5000), ("asynccross", 4000)],
         assumptions=cc.COMMON_ASSUMPTIONS + [
             "immediate and deferred (queue + flush) ChainMonitor modes; Persist returns InProgress/Completed as the script says; completion is reported through "
             "ChainMonitor::channel_monitor_updated in any order"])
